@@ -1,6 +1,7 @@
 SPECIFICATION Spec
 CONSTANT Kinds <- McKinds
 CONSTANT MaxDepth = 2
+CONSTANT Pre = {"foreign"}
 CONSTANT Bypass = TRUE
 INVARIANT RoNeverWrites
 INVARIANT StaticIsInert
